@@ -6,8 +6,9 @@
       Ls   : leader states separated by `;`, each
              <serving>:<started>:<ids>:<cur>:<data>:<wopen>:<tail>:<halt>   ids comma separated, `.` = none;
              tail = hex bytes appended to the leader once a stream reader is open;
-             halt = `-` | <k>,<0|1>: the leader is stopped during this request's transfer after k
-             CONTINUE messages (1: its handler answered FAULT, 0: clean end of stream)
+             halt = `-` | <k>,<0|1|2>: the leader is stopped (or its channel relabelled) during this
+             request's transfer after k CONTINUE messages (1: its handler answered FAULT, 0: clean end
+             of stream, 2: ERROR — the id check after a read found the channel relabelled)
       views: per request of the session (handshake first) the indices a.a'.b.b'.c.d into Ls of the
              state read at the gate + selfInspection's input ids, selfInspection's channel id,
              Handle's input ids, StartPoint, IsValidOffset, NewReader (a.b.c.d = a.a.b.b.c.d);
@@ -16,7 +17,9 @@
       data : `-` (nothing) | <base>/<hex bytes>/<hex snapshot | ~>
       ch   : `.` | n,n,…                 sizes of the CONTINUE chunks as observed
       cut  : messages delivered before the transport fails
-      lost : received stream bytes not persisted when the writer was closed
+      lost : received stream bytes not persisted when the writer was closed; `<n>w<K>`: in addition the
+             follower's store fails the write of payload byte K+1 of every writer of the session;
+             a trailing `r`: the commit (rename) of a completely written snapshot fails
       fuel : metaSync rounds the harness lets the follower make
   →
     m <CODE> id=<id> aof=<0|1> off=<int> size=<int> data=<hex>      per delivered message
@@ -29,6 +32,10 @@
 -/
 import GunYu.Model.Replica
 import GunYu.Model.Handover
+import GunYu.Model.ReplicaReopen
+import GunYu.Model.ReplicaIdSrc
+import GunYu.Props.C16Reader
+import GunYu.Props.C16Promote
 namespace GunYu.Drive.C16
 open GunYu GunYu.Replica
 
@@ -55,7 +62,7 @@ def parseLeader (s : String) : Option (Leader UInt8) :=
     let tail ← Hex.decode tl
     let halt ← if hl == "-" then some none else
       match hl.splitOn "," with
-      | [k, f] => do pure (some (← k.toNat?, f == "1"))
+      | [k, f] => do pure (some (← k.toNat?, if f == "1" then HaltEnd.fault else if f == "2" then .idgone else .clean))
       | _ => none
     pure ⟨sv == "1", st == "1", parseIds ids, idOf cur, data, w == "1", tail, halt⟩
   | _ => none
@@ -118,7 +125,7 @@ def showStage : Stage → String
 def showCls : Cls → String
   | .cut => "cut" | .eof => "eof" | .rpcerr => "rpcerr" | .failure => "failure" | .error => "error"
   | .fault => "fault" | .takeover => "takeover" | .clear => "clear" | .emptyid => "emptyid"
-  | .discont => "discont" | .fuel => "fuel"
+  | .discont => "discont" | .fuel => "fuel" | .wfail => "wfail"
 
 /-! ### hand-over (Model/Handover.lean)
 
@@ -237,7 +244,126 @@ def handRun (n ttl caches evs : String) : List String :=
   let senders := (idx.filter (fun i => sending (s.loc i))).length
   out ++ [s!"end lease={lease} phases={phases} caches={caches} senders={senders}"]
 
+/-! ### a re-opened directory image (Model/ReplicaReopen.lean `dataOfReopened` over C08's `reopen`)
+
+    reopen <image>      image = `.` | <file name>=<hex content>,…   (the files of ONE run-id directory)
+    → `D <data>`        what a fresh StoreChannel serves for that directory after re-opening it -/
+
+def stripSuffix (s suffix : String) : Option String :=
+  let cs := s.toList
+  let sf := suffix.toList
+  if sf.isSuffixOf cs then some (String.ofList (cs.take (cs.length - sf.length))) else none
+
+def parsePair (p : String) : Option (Nat × Nat) :=
+  match p.splitOn "_" with
+  | [a, b] =>
+    match a.toNat?, b.toNat? with
+    | some l, some s => some (l, s)
+    | _, _ => none
+  | _ => none
+
+/-- classification of a directory entry the way `initDataSet` does it -/
+def parseName (n : String) : StoreFs.FName :=
+  match stripSuffix n ".aof" with
+  | some p => (match p.toNat? with | some l => .aof l | none => .other n)
+  | none =>
+    match stripSuffix n ".rdb.tmp" with
+    | some p => (match parsePair p with | some (l, s) => .rdbTmp l s | none => .other n)
+    | none =>
+      match stripSuffix n ".rdb" with
+      | some p => (match parsePair p with | some (l, s) => .rdb l s | none => .other n)
+      | none => .other n
+
+def parseImage (s : String) : StoreFs.FS :=
+  if s == "." then [] else
+  (s.splitOn ",").filterMap (fun e =>
+    match e.splitOn "=" with
+    | [n, h] => (Hex.decode h).map (fun b => (parseName n, b))
+    | _ => none)
+
+/-! ### where the leader's run id comes from (Model/ReplicaIdSrc.lean)
+
+    ids <hex INFO body>                       → ids id1=<hex> id2=<hex>
+    psy <hex reply line> <hex asked id> <off> → psy ok id=<hex> off=<n> full=<0|1>  |  psy err -/
+
+def txtOf (bs : Bytes) : Txt := bs.map (fun b => Char.ofNat b.toNat)
+def hexOfTxt (t : Txt) : String := Hex.encode (t.map (fun c => c.toNat.toUInt8))
+
+/-! ### the repaired send loop over C05's memory model (Props/C16Reader.lean `LState.run`, the model
+    `mem_checked_send_serves_own_id` is about)
+
+    lsend <logSize> <x> <y> <base> <hex x bytes> <off> <reads> <hex y bytes>
+      the memory channel labelled x holds the bytes from `base`; a stream reader is opened at `off`;
+      sendData's loop makes the listed reads (sizes as observed; the model's pipe may hand the bytes
+      of one real read out in several `consume`s), each followed by the id check and the Send; then the leader's input fails over (writer closed, SetRunId y, new writer at the end,
+      y's bytes) and the loop makes one more read + check
+    → sent=<hex of everything sent> stopped=<0|1> -/
+
+open GunYu.Store GunYu.Props.C16 in
+/-- the loop's read of `k` bytes: the model's pipe hands out what its two buffers hold at the
+    moment (a `consume` may come back short where the real read, later in time, did not), so the
+    copy loop is run and the pipe consumed until `k` bytes are pending -/
+def gather (x : String) (cps : List LOp) : Nat → LState → Nat → LState
+  | 0, L, _ => L
+  | _, L, 0 => L
+  | fuel + 1, L, k + 1 =>
+    let L1 := L.run x 0 cps
+    let L2 := L1.step x 0 (.ch (.consume 0 (k + 1)))
+    let got := L2.pending.length - L1.pending.length
+    if got = 0 then L2 else gather x cps fuel L2 (k + 1 - got)
+
+open GunYu.Store GunYu.Props.C16 in
+def lsend (logSize : Nat) (x y : String) (base : Nat) (xb : Bytes) (off : Nat) (reads : List Nat) (yb : Bytes) : String :=
+  let n := (xb.length + yb.length) / (max logSize 1) + 8
+  let cps := List.replicate n (LOp.ch (.copyStep 0))
+  let pre : List MOp := [.setRunId x, .newAofWriter base] ++ (if xb.isEmpty then [] else [.aofAppend xb])
+  let m0 := (Mem.init logSize (2 ^ 40)).run pre
+  let m1 := (m0.step (.openReader 0 off)).1
+  let L0 : LState := (⟨m1, [], [], false⟩ : LState).step x 0 (.ch (.startReader 0))
+  let L1 := reads.foldl (fun L k => (gather x cps (k + 4) L k).step x 0 .check) L0
+  let fo := [LOp.ch .aofClose, .ch (.setRunId y), .ch (.newAofWriter (base + xb.length))] ++
+    (if yb.isEmpty then [] else [LOp.ch (.aofAppend yb)])
+  let L2 := (gather x cps 8 (L1.run x 0 fo) 4096).step x 0 .check
+  s!"sent={Hex.encode L2.sent} stopped={if L2.stopped then 1 else 0}"
+
+/-! ### the bridge to C06 (Props/C16Promote.lean `cacheOfData`): what the channel API answers about
+    the copy a follower holds under its current id, writers closed (as at a promotion)
+
+    cache <bk> <id> <data>  →  rdb=<left>,<size> range=<l>,<r> latest=<n>
+      = C06's `Cache.getRdb` / `Cache.getOffsetRange` / `Cache.latest` of `cacheOfData bk id data`,
+      compared with the real Channel.GetRdb / GetOffsetRange / StartPoint(nil).Offset -/
+
+def cacheLine (bk : Backend) (x : Id) (d : Option (Data UInt8)) : String :=
+  let c := GunYu.Props.C16.cacheOfData bk x d
+  let e := GunYu.Props.C16.encId x
+  let r := c.getRdb e
+  let g := c.getOffsetRange e
+  s!"rdb={r.1},{r.2} range={g.1},{g.2} latest={c.latest}"
+
 def handle : List String → Option (List String)
+  | ["cache", bk, x, d] =>
+    let r : Option String := do
+      let bk ← if bk == "d" then some Backend.disk else if bk == "m" then some Backend.mem else none
+      pure (cacheLine bk (idOf x) (← parseData d))
+    some [r.getD "bad-op"]
+  | ["lsend", ls, x, y, base, xb, off, reads, yb] =>
+    let r : Option String := do
+      pure (lsend (← ls.toNat?) x y (← base.toNat?) (← Hex.decode xb) (← off.toNat?) (← parseNats reads) (← Hex.decode yb))
+    some [r.getD "bad-op"]
+  | ["ids", info] =>
+    some [match Hex.decode info with
+      | some bs => let r := getRunIds (txtOf bs); s!"ids id1={hexOfTxt r.1} id2={hexOfTxt r.2}"
+      | none => "bad-op"]
+  | ["psy", reply, asked, off] =>
+    let r : Option String := do
+      let rp ← Hex.decode reply
+      let ak ← Hex.decode asked
+      let off ← off.toInt?
+      pure (match parsePsync (txtOf rp) (txtOf ak) off with
+        | some a => s!"psy ok id={hexOfTxt a.id} off={a.off} full={if a.full then 1 else 0}"
+        | none => "psy err")
+    some [r.getD "bad-op"]
+  | ["reopen", img] => some ["D " ++ showData (StoreFs.dataOfReopened (parseImage img))]
   | ["sess", bk, l, vw, f, ch, cut, lost, fuel] =>
     let r : Option (List String) := do
       let bk ← if bk == "d" then some Backend.disk else if bk == "m" then some Backend.mem else none
@@ -248,7 +374,14 @@ def handle : List String → Option (List String)
       let F ← parseStore f
       let ch ← parseNats ch
       let cut ← cut.toNat?
-      let lost ← lost.toNat?
+      -- lost = <pipe> | <pipe>w<K>: K payload bytes reach the file of every writer of the session,
+      -- the write of the next byte fails
+      let nocommit := lost.endsWith "r"
+      let lost := if nocommit then (lost.dropRight 1) else lost
+      let lost ← match lost.splitOn "w" with
+        | [a] => do pure (⟨← a.toNat?, none, nocommit⟩ : Loss)
+        | [a, k] => do pure (⟨← a.toNat?, some (← k.toNat?), nocommit⟩ : Loss)
+        | _ => none
       let fuel ← fuel.toNat?
       let o := sessionV bk (mkViews ls vs) F ch cut lost fuel
       pure (o.trace.map showMsg ++ [s!"end {showStage o.stage} {showCls o.cls}", "F " ++ showStore bk o.store])
